@@ -125,10 +125,12 @@ def reconcile(pid, tier, repo_root, seed, ctx, err):
             if clean_for(c, r):
                 state['cleared'][r] = name
     absorb('source as written', ctx, err)
-    for name, (cf, lookups) in VIEWS:
+    for name, vcfg in VIEWS:
+        cf, lookups = vcfg[0], vcfg[1]
+        split = vcfg[2] if len(vcfg) > 2 else False
         if state['primary'] is not None and not (state['failing'] - set(state['cleared'])):
             break
-        d, changed = make_view(repo_root, cf, lookups)
+        d, changed = make_view(repo_root, cf, lookups, split)
         try:
             if not changed:
                 continue
